@@ -612,11 +612,9 @@ Section Dispatch.
     - injection E as <- <-. do 4 eexists. split; [reflexivity|exact I].
     - exfalso. eapply NE. reflexivity.
     - injection E as <- <-. do 4 eexists. split; [reflexivity|].
-      rewrite <- (ci_fused _ H1). split; [|split; [exact T1|split; [exact F1|]]].
-      + rewrite (ci_fused _ H1). apply CI_log, H1.
-      + cbn [cancels upd_tr]. eapply CI_rl_drained; eassumption.
+      rewrite (ci_fused _ H1). split; [apply CI_log, H1|split; [exact T1|split; [exact F1|]]].
+      cbn [cancels upd_tr]. exact (CI_rl_drained _ _ _ H0 ER).
     - injection E as <- <-. do 4 eexists. split; [reflexivity|].
-      rewrite <- (ci_fused _ H1). split; [|split; [exact T1|exact F1]].
-      rewrite (ci_fused _ H1). apply CI_log, H1.
+      rewrite (ci_fused _ H1). split; [apply CI_log, H1|split; [exact T1|exact F1]].
   Qed.
 End Dispatch.
